@@ -1,8 +1,9 @@
 (** The format filters of jaq-fmts/src/{read,write}/funs.rs that are modelled: CSV/TSV in full, [toyaml] in full,
-    [fromyaml] on documents that consist of one plain scalar (the YAML scanner is third-party). *)
+    [fromyaml] on documents that consist of one plain scalar (the YAML scanner is third-party), [tocbor] in full, [fromcbor]
+    except indefinite-length strings. *)
 From Coq Require Import ZArith Bool List.
 From Coq Require Import Strings.String.
-From JaqV Require Import Base.Bytes Base.Stream Val.Num Val.Val Val.Err Core.Natives Std.Natives Fmts.Yaml Fmts.Tabular.
+From JaqV Require Import Base.Bytes Base.Stream Val.Num Val.Val Val.Err Core.Natives Std.Natives Fmts.Yaml Fmts.Tabular Fmts.Cbor.
 Import ListNotations.
 Local Open Scope Z_scope.
 
@@ -24,6 +25,13 @@ Definition fmts_run (name : bytes) (args : list narg) (v : val) : option (str va
       else if name_is name "fromyaml" then
         Some (match as_utf8_bytes v with
               | Ok s => if plain_document s && is_ascii_bytes s then sone (resolve s) else SUnk
+              | Err e => serr e
+              end)
+      else if name_is name "tocbor" then Some (sone (BStr (Cbor.encode v)))
+      else if name_is name "fromcbor" then
+        Some (match as_bytes v with
+              | Ok s => let '(vs, f) := Cbor.decode_many s in
+                        sapp (of_list vs) (fun _ => match f with MEnd => SNil | MErr => serr (EOther 21) | MUnk => SUnk end)
               | Err e => serr e
               end)
       else None
